@@ -53,7 +53,8 @@ def prove_targets(db, targets, lemmas=(), timeout_ms=20000, verbose=False):
                 names = sorted(c2.cases)
                 for combo in itertools.product(*[c2.cases[n] for n in names]):
                     fx = dict(zip(names, combo))
-                    tag = ",".join("%s=%r" % kv for kv in sorted(fx.items()))
+                    tag = ",".join(("%s=T%d" % (k_[5:], c2.cases[k_].index(v_))) if k_.startswith("type:") else "%s=%r" % (k_, v_)
+                                   for k_, v_ in sorted(fx.items()))
                     expanded.append((c2, tgt, (prefix or tgt) + "[" + tag + "]", fx))
             else:
                 expanded.append((c2, tgt, prefix, None))
@@ -69,7 +70,7 @@ def prove_targets(db, targets, lemmas=(), timeout_ms=20000, verbose=False):
                     rec["no_fuzz"] = True  # trace contracts of orchestration code have no concrete evaluator
                 funcs.append(rec)
             except Unsupported as e:
-                undecided.append({"function": tgt, "contract": c2.target, "reason": "Unsupported: %s" % e})
+                undecided.append({"function": tgt, "contract": c2.target, "prefix": prefix or tgt, "reason": "Unsupported: %s" % e})
                 if getattr(e, "partial", None):
                     ex, o, fi = e.partial
                     heaps[id(ex.inputs)] = ex.old_state.heap if ex.old_state is not None else {}
@@ -77,7 +78,7 @@ def prove_targets(db, targets, lemmas=(), timeout_ms=20000, verbose=False):
                         ob.partial = True
                     obs += o
             except Exception as e:
-                undecided.append({"function": tgt, "contract": c2.target, "reason": "engine error: %r" % e,
+                undecided.append({"function": tgt, "contract": c2.target, "prefix": prefix or tgt, "reason": "engine error: %r" % e,
                                   "trace": traceback.format_exc()[-1500:]})
     for lm in lemmas:
         try:
